@@ -660,7 +660,7 @@ func checkRecorderConfigValidation(w *World, r *Report, e *termEnv) {
 // C04
 
 func propC04(w *World, r *Report) {
-	r.Explanation = "Decided clause: (S1, only-if) every StartRecording on the motion sink is reached only in abstract states with the sink closed, motion detected on this frame, consecutive-motion counter >= trigger-frames, window.Active() true and CheckCanRecord() nil; (S2, if) every frame call with detected motion and a closed sink evaluates the trigger comparison, then the window, then the storage check, and attempts the start when all pass; (S3) the counter is incremented exactly on motion frames before the comparison and is zeroed only on motionless frames or after a real stop, never on a refusal; (S4) the limit is ThermalMotion.TriggerFrames and the refusal is strict '<'; (S5) CPTVFileRecorder.CheckCanRecord returns nil exactly on statfs ok and free MB >= MinDiskSpaceMB of OutputDir; (S6) the throttler forwards CheckCanRecord unchanged. Rule: decisions and ghosts of the typestate fix-point + path enumeration / normal forms of the disk check."
+	r.Explanation = "Decided clause: (S1, only-if) every StartRecording on the motion sink is reached only in abstract states with the sink closed, motion detected on this frame, consecutive-motion counter >= trigger-frames, window.Active() true and CheckCanRecord() nil; (S2, if) every frame call with detected motion and a closed sink evaluates the trigger comparison, then the window, then the storage check, and attempts the start when all pass; (S3) the counter is incremented exactly on motion frames before the comparison and is zeroed only on motionless frames or after a real stop, never on a refusal, and IS zero whenever a call that stopped the recording returns; (S4) the limit is ThermalMotion.TriggerFrames and the refusal is strict '<'; (S5) CPTVFileRecorder.CheckCanRecord returns nil exactly on statfs ok and free MB >= MinDiskSpaceMB of OutputDir; (S6) the throttler forwards CheckCanRecord unchanged. Rule: decisions and ghosts of the typestate fix-point + path enumeration / normal forms of the disk check."
 	r.RuleText = "obligation per (rule, construct)"
 	r.Assumptions = []string{"the window library's clock arithmetic (boundaries, midnight) is a dependency and numeric: not decided", "file creation failure is the StartRecording error fork of the fix-point"}
 	runs, roles, _, ok := commonMotionSetup(w, r)
@@ -1204,7 +1204,7 @@ func propC13(w *World, r *Report) {
 // C17
 
 func propC17(w *World, r *Report) {
-	r.Explanation = "Decided clause (fault-free fix-point): (V1) with the continuous sink present every successfully parsed frame is written to it exactly once per Process call in every reachable state (independent of motion, window, throttle decisions); (V2) a file's frame count starts at 0 when it opens, +1 per write, the file is closed when count > K evaluated after the increment, then count=0, with K = MaxSecs*FPS (continuous) and K = 20 (test) => K+1 frames per file, and a new continuous file opens on the very next frame; (V3) the frame call that consumes a test-recording request starts the test file and writes that frame; (V4) the continuous/test paths do not modify the state of the motion path; (V5) the continuous and test sinks are wired as bare file recorders, never throttled. Rule: typestate fix-point (counters as signs, decisions on counter comparisons) + normal forms."
+	r.Explanation = "Decided clause (fault-free fix-point): (V1) with the continuous sink present every successfully parsed frame is written to it exactly once per Process call in every reachable state (independent of motion, window, throttle decisions); (V2) a file's frame count starts at 0 when it opens, +1 per write, the file is closed when count > K evaluated after the increment, then count=0, with K = MaxSecs*FPS (continuous) and K = 20 (test) => K+1 frames per file, and a new continuous file opens on the very next frame; (V3) the frame call that consumes a test-recording request starts the test file and writes that frame, and a test file is started only by a call that took the request flag from requested to idle; (V4) the continuous/test paths do not modify the state of the motion path; (V5) the continuous and test sinks are wired as bare file recorders, never throttled, the continuous one switched into constant-recorder mode (flag set to true, folder set, on every path). Rule: typestate fix-point (counters as signs, decisions on counter comparisons) + normal forms."
 	r.RuleText = "obligation per (rule, construct)"
 	r.Assumptions = []string{"fault paths of these sinks are decided by C12", "overlapping test-recording requests are served by the recording in progress (the statement quantifies over non-overlapping requests)"}
 	runs, _, roles, ok := commonMotionSetup(w, r)
